@@ -123,6 +123,9 @@ func c18(r *Report) propMeta {
 	r.ArgHas("force-members-of-incoming", ft, "Keeper.AddMembers", 1, 1, "field:MsgForceTransitionGroup.IncomingGroupID")
 	r.SameValue("force-same-incoming", ft, ArgRef{"Keeper.AddMembers", 1}, ArgRef{"Keeper.SetNewGroupTransition", 1}, ArgRef{"TSSKeeper.GetGroup", 1})
 
+	r.Rule("C18.R8", "store-key agreement: every point read/delete addresses a written key family")
+	r.StoreKeyAgreement("store-keys", "bandtss", 8, nil)
+
 	return propMeta{
 		Decided: []string{
 			"R1 SetCurrentGroup is called only by ExecuteGroupTransition (and genesis), itself only by bandtss EndBlocker under ShouldExecuteGroupTransition's ok; transitions are created only by the two governance handlers; store keys have single writers",
@@ -132,6 +135,7 @@ func c18(r *Report) propMeta {
 			"R5 both proposal handlers: authority equality, exec-time window and no-transition-in-progress gate every write; ValidateTransitionInProgress errors iff a transition is stored (single condition); force additionally incoming != current, ACTIVE, AddMembers ok",
 			"R6 the incoming-group RequestSigning runs on a CacheContext whose writeFn is gated by err == nil and whose failure does not abort the request; GetIncomingGroupID non-zero only under WAITING_EXECUTION",
 			"R7 DeleteMembers(current) on execution; AddMembers(incoming) precedes every WAITING_EXECUTION",
+			"R8 every KV-store Get/Has/Delete of x/bandtss uses a key builder of x/bandtss/types that some Set of the module also uses (a probe of an iteration prefix or of a sibling family is always-empty state)",
 		},
 		Undecided: []string{"interleavings of callbacks, deadlines and concurrent requests (schedule/history)", "that tss actually invokes the callbacks it should"},
 		Assume:    []string{"VTA resolves the tss callback router to bandtss TSSCallback", "msg handlers atomic; governance authority check by address equality"},
